@@ -507,3 +507,80 @@ Lemma run_z15 : process (mk_args None None (Some (3 # 2)%Q) None true true false
 Proof. vm_compute. reflexivity. Qed.
 Lemma run_w0 : process (args_w 0) doc_20x10 = (Exit1 EArgs, false).
 Proof. vm_compute. reflexivity. Qed.
+
+(* ---- extension round 4: every size the tool computes, and every image it writes, has valid dimensions ---------- *)
+Definition isize_valid (s : isize) : Prop := 0 < is_w s <= U32_MAX /\ 0 < is_h s <= U32_MAX.
+
+Lemma sat_ceil_pos q : (0 < q)%Q -> 0 < sat_u32 (Qceiling q) <= U32_MAX.
+Proof. intro H. apply Qceiling_pos in H. unfold sat_u32, U32_MAX. lia. Qed.
+
+Lemma ratio_pos a b c : 0 < a -> 0 < b -> 0 < c -> (0 < zq a * zq b / zq c)%Q.
+Proof.
+  intros A B C. apply Qlt_shift_div_l. apply zq_pos; exact C.
+  rewrite Qmult_0_l. apply Qmult_lt_0_compat; apply zq_pos; assumption.
+Qed.
+
+Lemma to_int_size_valid w h : isize_valid (to_int_size w h).
+Proof.
+  unfold isize_valid, to_int_size; simpl.
+  pose proof (sat_u32_range (Qround_haz w)). pose proof (sat_u32_range (Qround_haz h)). unfold U32_MAX in *. lia.
+Qed.
+
+(* FitTo::fit_to_size (source-derived) never yields a zero or out-of-range side, whatever the option *)
+Theorem fit_size_valid f s r : isize_valid s -> fit_to_size f s = Some r -> isize_valid r.
+Proof.
+  intros [[W0 W1] [H0 H1]] F. destruct f as [|w|h|w h|z]; simpl in F.
+  - inversion F; subst. split; split; assumption.
+  - unfold isize_scale_to_width in F. apply from_wh_some in F. unfold isize_valid. lia.
+  - unfold isize_scale_to_height in F. apply from_wh_some in F. unfold isize_valid. lia.
+  - destruct (isize_from_wh w h) as [s2|] eqn:E; [|discriminate]. simpl in F. inversion F; subst r; clear F.
+    apply from_wh_some in E. unfold isize_scale_to.
+    assert (P1 : 0 < sat_u32 (Qceiling (zq (is_h s2) * zq (is_w s) / zq (is_h s))%Q) <= U32_MAX)
+      by (apply sat_ceil_pos, ratio_pos; lia).
+    assert (P2 : 0 < sat_u32 (Qceiling (zq (is_w s2) * zq (is_h s) / zq (is_w s))%Q) <= U32_MAX)
+      by (apply sat_ceil_pos, ratio_pos; lia).
+    destruct (_ >=? _); unfold isize_valid; simpl; lia.
+  - unfold isize_scale_by in F. apply from_wh_some in F. unfold isize_valid. lia.
+Qed.
+
+Lemma canvas_ok_dims e s : canvas_ok e s = true -> 0 < is_w s <= MAX_PIXMAP_W /\ 0 < is_h s.
+Proof. unfold canvas_ok, pixmap_new_ok. intro H. b2p. lia. Qed.
+
+(* render_svg: whichever path is taken (normal, --export-area-drawing, --export-id, --export-area-page), a returned
+   pixmap has a width in 1..i32::MAX/4 and a height in 1..u32::MAX *)
+Lemma render_ok_dims a e sz d : render_svg a e sz = ROk d ->
+  0 < is_w d <= MAX_PIXMAP_W /\ 0 < is_h d <= U32_MAX.
+Proof.
+  unfold render_svg. intros R.
+  destruct (a_export_id a).
+  - destruct (e_node e) as [| |x y w h]; try discriminate.
+    destruct (fit_to_size (the_fit a) (to_int_size w h)) as [size|] eqn:F1; [|discriminate].
+    destruct (canvas_ok e size) eqn:C1; simpl in R; [|discriminate].
+    destruct (a_area_page a).
+    + destruct (fit_to_size (the_fit a) (to_int_size (fst sz) (snd sz))) as [psize|] eqn:F2; [|discriminate].
+      destruct (canvas_ok e psize) eqn:C2; simpl in R; [|discriminate]. inversion R; subst d.
+      apply canvas_ok_dims in C2. apply fit_size_valid in F2; [|apply to_int_size_valid]. unfold isize_valid in F2. lia.
+    + inversion R; subst d.
+      apply canvas_ok_dims in C1. apply fit_size_valid in F1; [|apply to_int_size_valid]. unfold isize_valid in F1. lia.
+  - destruct (fit_to_size (the_fit a) (to_int_size (fst sz) (snd sz))) as [size|] eqn:F1; [|discriminate].
+    destruct (canvas_ok e size) eqn:C1; simpl in R; [|discriminate].
+    pose proof C1 as C1'. apply canvas_ok_dims in C1.
+    apply fit_size_valid in F1; [|apply to_int_size_valid]. unfold isize_valid in F1.
+    destruct (a_area_drawing a); [|inversion R; subst d; lia].
+    destruct (is_h size <=? I32_MAX) eqn:HH.
+    + apply Z.leb_le in HH. unfold canvas_ok in C1'. apply andb_true_iff in C1'. destruct C1' as [P _].
+      pose proof (trim_within_canvas _ _ _ _ _ P HH R). lia.
+    + exfalso. apply Z.leb_gt in HH. unfold trim in R. destruct (e_content e) as [[[x y] w] h]. cbv zeta in R.
+      assert (N : irect_from_xywh 0 0 (is_w size) (is_h size) = None).
+      { unfold irect_from_xywh. replace (is_h size <=? I32_MAX) with false by (symmetry; apply Z.leb_gt; exact HH).
+        rewrite ?andb_false_r. reflexivity. }
+      rewrite N in R. discriminate.
+Qed.
+
+(* lifted to the whole state machine: exit status 0 with an image => its dimensions are a valid PNG canvas *)
+Theorem written_image_dims_valid a e d : fst (process a e) = Exit0 (Some d) ->
+  snd (process a e) = true /\ 0 < is_w d <= MAX_PIXMAP_W /\ 0 < is_h d <= U32_MAX.
+Proof.
+  intros X. split; [exact (exit0_image_written a e d X)|].
+  apply exit0_render in X. destruct X as [sz [T [R _]]]. exact (render_ok_dims a e sz d R).
+Qed.
